@@ -93,8 +93,19 @@ func ruleC04R2(r *Run) {
 		r.Check("(*randomBitStream).init", fn.Pos(), len(cs) == 1 && p.resolve(cs[0].Arg(0)) == ssa.Value(paramNamed(fn, "seed")), "passes the seed unchanged to jsf64ctx.init", "randomBitStream.init does not pass its seed unchanged to jsf64ctx.init")
 	}
 	if fn := r.MustFn("newRandomBitStream"); fn != nil {
-		cs := p.callsTo(fn, "(*randomBitStream).init")
-		r.Check("newRandomBitStream", fn.Pos(), len(cs) == 1 && p.resolve(cs[0].Arg(0)) == ssa.Value(paramNamed(fn, "seed")), "initialises the stream with the given seed", "newRandomBitStream does not initialise the stream with its seed parameter")
+		// through the stream's own init, or directly on its generator state
+		cs := append(p.callsTo(fn, "(*randomBitStream).init"), p.callsTo(fn, "(*jsf64ctx).init")...)
+		okInit := len(cs) == 1 && p.resolve(cs[0].Arg(0)) == ssa.Value(paramNamed(fn, "seed"))
+		if okInit && cs[0].Key == "(*jsf64ctx).init" {
+			fa, isFA := cs[0].Recv().(*ssa.FieldAddr)
+			okInit = isFA && fieldAddrName(fa) == "ctx"
+			for _, ret := range returnsOf(fn) {
+				if isFA && p.resolve(p.res(ret, 0)) != p.resolve(fa.X) {
+					okInit = false
+				}
+			}
+		}
+		r.Check("newRandomBitStream", fn.Pos(), okInit, "initialises the stream with the given seed", "newRandomBitStream does not initialise the stream with its seed parameter")
 	}
 	if fn := r.MustFn("(*Generator).Example"); fn != nil {
 		cs := p.callsTo(fn, "newRandomBitStream")
@@ -502,6 +513,26 @@ func replayNeutralUse(r *Run, fn *ssa.Function, ld *ssa.UnOp) (bool, string) {
 			if cp.infeasible || why != "" {
 				return
 			}
+			// the flag is read more than once (nothing in more writes it): a path on which two reads disagree does
+			// not exist
+			for i := 0; i+1 < len(cp.blocks); i++ {
+				blk := cp.blocks[i]
+				iff2, isIf := blk.Instrs[len(blk.Instrs)-1].(*ssa.If)
+				if !isIf || blk.Succs[0] == blk.Succs[1] {
+					continue
+				}
+				c, pol := ssa.Value(iff2.Cond), blk.Succs[0] == cp.blocks[i+1]
+				for k := 0; k < 3; k++ {
+					if u, isNot := c.(*ssa.UnOp); isNot && u.Op == token.NOT {
+						c, pol = u.X, !pol
+						continue
+					}
+					break
+				}
+				if l2, isLoad := c.(*ssa.UnOp); isLoad && l2.Op == token.MUL && l2 != ld && p.expr(l2) == p.expr(ld) && !pol {
+					return // this path takes the flag as false after the branch under examination took it as true
+				}
+			}
 			last := cp.blocks[len(cp.blocks)-1]
 			ret, isRet := last.Instrs[len(last.Instrs)-1].(*ssa.Return)
 			if !isRet {
@@ -539,6 +570,24 @@ func replayNeutralUse(r *Run, fn *ssa.Function, ld *ssa.UnOp) (bool, string) {
 			}
 			if why != "" {
 				return
+			}
+			// the coin group may be opened before the branch (shared with the free coin): then nothing is drawn between
+			// its beginGroup and the branch
+			if len(calls) >= 2 && keys[0] == "invoke:bitStream.drawBits" && keys[1] == "invoke:bitStream.endGroup" {
+				if bg, isCall := p.resolve(calls[1].Common().Args[0]).(*ssa.Call); isCall && p.calleeKey(bg.Common()) == "invoke:bitStream.beginGroup" && dominates(bg, b.iff) {
+					clean := true
+					for _, blk := range p.body(fn) {
+						for _, in := range blk.Instrs {
+							if k, _ := isStreamCall(in); k != "" && in != ssa.Instruction(bg) && reachable(bg, in, nil) && reachable(in, b.iff, nil) {
+								clean = false
+							}
+						}
+					}
+					if clean {
+						keys = append([]string{"invoke:bitStream.beginGroup"}, keys...)
+						calls = append([]*ssa.Call{bg}, calls...)
+					}
+				}
 			}
 			if len(calls) < 3 || keys[0] != "invoke:bitStream.beginGroup" || keys[1] != "invoke:bitStream.drawBits" || keys[2] != "invoke:bitStream.endGroup" {
 				why = "the forced-stop path makes the bitstream calls " + strings.Join(keys, ", ") + " (expected beginGroup, drawBits(0), endGroup first)"
@@ -650,12 +699,50 @@ func replayNeutralUse(r *Run, fn *ssa.Function, ld *ssa.UnOp) (bool, string) {
 		if len(other.Instrs) == 0 {
 			return false, "empty uninfluenced edge"
 		}
+		// (flipBiasedCoin, or its body written out: one genFloat01 word compared with 1-p — the comparison itself is
+		// checked by C03-R9)
 		isCoin := func(in ssa.Instruction) bool {
 			c, ok := in.(*ssa.Call)
-			return ok && p.calleeKey(c.Common()) == "flipBiasedCoin"
+			return ok && (p.calleeKey(c.Common()) == "flipBiasedCoin" || p.calleeKey(c.Common()) == "genFloat01")
 		}
-		first := other.Instrs[0]
-		if !isCoin(first) && escapesWithout(first, isCoin, false) != nil {
+		noCoin := ""
+		okEnum2 := p.pathsFrom(other, 400, func(cp *cfgPath, back bool) {
+			if cp.infeasible || back || noCoin != "" {
+				return
+			}
+			last := cp.blocks[len(cp.blocks)-1]
+			if _, isRet := last.Instrs[len(last.Instrs)-1].(*ssa.Return); !isRet {
+				return
+			}
+			// a later read of the flag taken as true contradicts this edge
+			for i := 0; i+1 < len(cp.blocks); i++ {
+				blk := cp.blocks[i]
+				iff2, isIf := blk.Instrs[len(blk.Instrs)-1].(*ssa.If)
+				if !isIf || blk.Succs[0] == blk.Succs[1] {
+					continue
+				}
+				c, pol := ssa.Value(iff2.Cond), blk.Succs[0] == cp.blocks[i+1]
+				for k := 0; k < 3; k++ {
+					if u, isNot := c.(*ssa.UnOp); isNot && u.Op == token.NOT {
+						c, pol = u.X, !pol
+						continue
+					}
+					break
+				}
+				if l2, isLoad := c.(*ssa.UnOp); isLoad && l2.Op == token.MUL && l2 != ld && p.expr(l2) == p.expr(ld) && pol {
+					return
+				}
+			}
+			for _, blk := range cp.blocks {
+				for _, in := range blk.Instrs {
+					if isCoin(in) {
+						return
+					}
+				}
+			}
+			noCoin = cp.String()
+		})
+		if !okEnum2 || noCoin != "" {
 			return false, "the uninfluenced edge does not flip the ordinary coin"
 		}
 	}
@@ -726,6 +813,38 @@ func ruleC04R45(r *Run) {
 				}
 			}
 			if inv {
+				continue
+			}
+			// a variable that an attempt only overwrites: nothing inside the loop reads the value carried in (it is read
+			// after the loop, or decides in the loop condition whether another attempt is made)
+			deadInBody := ph.Referrers() != nil
+			if deadInBody {
+				for _, ref := range *ph.Referrers() {
+					if !l.Body[ref.Block()] {
+						continue
+					}
+					if ref.Block() != l.Header {
+						deadInBody = false
+						continue
+					}
+					switch x := ref.(type) {
+					case *ssa.If, *ssa.DebugRef:
+					case *ssa.UnOp:
+						if x.Op != token.NOT || x.Referrers() == nil {
+							deadInBody = false
+							continue
+						}
+						for _, r2 := range *x.Referrers() {
+							if _, isIf := r2.(*ssa.If); !isIf || r2.Block() != l.Header {
+								deadInBody = false
+							}
+						}
+					default:
+						deadInBody = false
+					}
+				}
+			}
+			if deadInBody {
 				continue
 			}
 			carried = append(carried, ph.Comment)
@@ -843,6 +962,26 @@ func ruleC04R46(r *Run) {
 				}
 			}
 		})
+		if complete && nPaths == 0 && l != nil {
+			// a loop whose exit test follows the attempt (`for !ok { … }`): the returning paths pass the header a second
+			// time; enumerate them from the block of the endGroup itself
+			complete = p.pathsFrom(cs.Instr.Block(), 4000, func(cp *cfgPath, back bool) {
+				if back || cp.infeasible {
+					return
+				}
+				last := cp.blocks[len(cp.blocks)-1]
+				if _, isRet := last.Instrs[len(last.Instrs)-1].(*ssa.Return); !isRet {
+					return
+				}
+				nPaths++
+				v, known := cp.eval(d)
+				if !known || v {
+					if bad == "" {
+						bad = fmt.Sprintf("on path %s the function returns a value although the discard flag %s is %s", cp, p.expr(d), map[bool]string{true: "true", false: "not provably false"}[known && v])
+					}
+				}
+			})
+		}
 		if !complete {
 			r.Undecided(name+"#discard-unused", cs.Instr.Pos(), "too many paths to enumerate")
 			continue
@@ -875,17 +1014,63 @@ func ruleC04R5(r *Run) {
 				if !ok || p.resolve(cs.Arg(0)) != ssa.Value(ph) {
 					continue
 				}
+				// net change of the index per way round the loop (a post statement i++ after an i-- in the removing branch
+				// is "stays"): unfolded through merge-block phis, each with the facts of the edge it comes from
+				type step struct {
+					d     int64
+					facts []rel
+					pos   token.Pos
+					ok    bool
+				}
+				var unfold func(v ssa.Value, from, to *ssa.BasicBlock, d int) []step
+				unfold = func(v ssa.Value, from, to *ssa.BasicBlock, d int) []step {
+					v = p.resolve(v)
+					facts := p.facts(from.Instrs[len(from.Instrs)-1])
+					if iff, ok := from.Instrs[len(from.Instrs)-1].(*ssa.If); ok && from.Succs[0] != from.Succs[1] {
+						facts = append(append([]rel{}, facts...), p.relOf(guard{Cond: iff.Cond, Pol: from.Succs[0] == to}))
+					}
+					if v == ssa.Value(ph) {
+						return []step{{0, facts, from.Instrs[0].Pos(), true}}
+					}
+					if d > 4 {
+						return []step{{0, facts, from.Instrs[0].Pos(), false}}
+					}
+					switch x := v.(type) {
+					case *ssa.BinOp:
+						if c, isC := constInt(p.resolve(x.Y)); isC && (x.Op == token.ADD || x.Op == token.SUB) {
+							if x.Op == token.SUB {
+								c = -c
+							}
+							var out []step
+							for _, s := range unfold(x.X, from, to, d+1) {
+								s.d += c
+								out = append(out, s)
+							}
+							return out
+						}
+					case *ssa.Phi:
+						if x.Block() != l.Header && l.Body[x.Block()] {
+							var out []step
+							for k, e := range x.Edges {
+								out = append(out, unfold(e, x.Block().Preds[k], x.Block(), d+1)...)
+							}
+							return out
+						}
+					}
+					return []step{{0, facts, from.Instrs[0].Pos(), false}}
+				}
 				for i, e := range ph.Edges {
 					pred := l.Header.Preds[i]
 					if !l.Header.Dominates(pred) {
 						continue
 					}
-					er := p.resolve(e)
-					facts := p.facts(pred.Instrs[len(pred.Instrs)-1])
-					if er == ssa.Value(ph) {
-						r.Check("(*recordedBits).prune#stay", pred.Instrs[0].Pos(), factContains(facts, ".discard") && holdsSuffix(facts, ".discard", "true"), "index stays after a removal", "index stays without a removal")
-					} else {
-						r.Check("(*recordedBits).prune#advance", pred.Instrs[0].Pos(), isIncrementOf(p, er, ph) && holdsSuffix(facts, ".discard", "false"), "index advances past kept groups", "index update of prune changed: "+p.expr(er))
+					for _, s := range unfold(e, pred, l.Header, 0) {
+						switch {
+						case s.ok && s.d == 0:
+							r.Check("(*recordedBits).prune#stay", s.pos, factContains(s.facts, ".discard") && holdsSuffix(s.facts, ".discard", "true"), "index stays after a removal", "index stays without a removal")
+						default:
+							r.Check("(*recordedBits).prune#advance", s.pos, s.ok && s.d == 1 && holdsSuffix(s.facts, ".discard", "false"), "index advances past kept groups", "index update of prune changed: "+p.expr(e))
+						}
 					}
 				}
 			}
@@ -1144,6 +1329,11 @@ func ruleC04R48(r *Run) {
 		}
 		return
 	}
+	ra := r.MustFn("runAction")
+	if ra == nil {
+		return
+	}
+	var posBefore []ssa.Value
 	// skipped must imply "stream position unchanged"
 	okPos := false
 	for _, b := range p.body(cl) {
@@ -1162,7 +1352,12 @@ func ruleC04R48(r *Run) {
 						bv, isB := constBool(x)
 						return isB && !bv
 					case *ssa.BinOp:
-						return p.isEq(x, "invoke:bitStream.drawn($t.s)", "$drawn")
+						k, bef, ok := runActionCmp(p, x, cl, ra)
+						if ok && k == "drawn" {
+							posBefore = append(posBefore, bef)
+							return true
+						}
+						return false
 					case *ssa.Phi:
 						for i, e := range x.Edges {
 							if must(e, d+1) {
@@ -1170,7 +1365,20 @@ func ruleC04R48(r *Run) {
 							}
 							// an edge that does not itself establish it must come from a block guarded by it
 							pred := x.Block().Preds[i]
-							if !holds(p.facts(pred.Instrs[len(pred.Instrs)-1]), "invoke:bitStream.drawn($t.s)", "==", "$drawn") {
+							guarded := false
+							gs := guardsOf(pred)
+							if iff, ok := pred.Instrs[len(pred.Instrs)-1].(*ssa.If); ok && pred.Succs[0] != pred.Succs[1] {
+								gs = append(gs, guard{Cond: iff.Cond, Pol: pred.Succs[0] == x.Block(), If: iff})
+							}
+							for _, g := range gs {
+								if bo, ok := p.resolve(g.Cond).(*ssa.BinOp); ok && g.Pol {
+									if k, bef, ok := runActionCmp(p, bo, cl, ra); ok && k == "drawn" {
+										posBefore = append(posBefore, bef)
+										guarded = true
+									}
+								}
+							}
+							if !guarded {
 								return false
 							}
 						}
@@ -1187,15 +1395,15 @@ func ruleC04R48(r *Run) {
 		}
 	}
 	// the capture is the stream position before the action
-	ra := r.MustFn("runAction")
-	if ra != nil {
-		okCap := false
-		for _, cs := range p.calls(ra) {
-			if d, ok := cs.Instr.(*ssa.Defer); ok {
-				for _, a := range d.Common().Args {
-					if p.expr(a) == "invoke:bitStream.drawn($t.s)" {
-						okCap = true
-					}
+	{
+		okCap := len(posBefore) > 0
+		for _, a := range p.calls(ra) {
+			if !strings.HasPrefix(a.Key, "dyn:") {
+				continue
+			}
+			for _, bv := range posBefore {
+				if bi, isIn := bv.(ssa.Instruction); !isIn || !dominates(bi, a.Instr) {
+					okCap = false
 				}
 			}
 		}
